@@ -1,12 +1,13 @@
 """C14 - transition iterators (narrow)."""
 from ..rules_shape import floor_a
-from ..rules_tz import floor_b, iter_feedback
+from ..rules_tz import floor_b, iter_feedback, in_dst_single
 from ..rules_dep import run_dep
 
 
 def run(ctx, rep):
     run_dep(ctx, rep, "C14")
     prog = ctx.prog("Q")
+    in_dst_single(rep, prog)
     rep.notes.append("Does not decide completeness ('omits none') or hand-over correctness.")
     floor_b(rep, prog, only=("previous_transition", "next_transition"))
     iter_feedback(rep, prog)
